@@ -758,7 +758,8 @@ def check_drr(H, case, pid):
                 continue
             if c in Q and abs(dv - Q[c]) < 0:
                 pass
-            if dv < 0 or dv >= Q[c] + lmax:
+            # (with fractional quanta the credit can come within one rounding error of the open upper end)
+            if dv < 0 or dv >= (Q[c] + lmax) * (1 + 1e-12):
                 viol.append((pid + '.3', 'DRR credit of class %r is %r at t=%r, outside [0, quantum %r + largest packet %r)' %
                              (c, dv, tp[1], Q[c], lmax)))
                 return viol, stats
